@@ -169,7 +169,7 @@ def run_c07(chk, F, tier):
                         c = core.blocks[r[1]][2][1]
                         if name(c).endswith("::ends_with") and len(c["a"]) == 2:
                             pat = c["a"][1]
-                            if pat[0] == "k" and pat[1] in ("char", "str") and pat[2] in ("\n",):
+                            if pat[0] == "k" and pat[1] in ("char", "str") and isinstance(pat[2], str) and pat[2].endswith("\n"):
                                 ok = True
                             else:
                                 why = "ends_with a pattern that is not the constant '\\n'"
